@@ -8,6 +8,7 @@ import (
 	"os"
 	"path/filepath"
 	"regexp"
+	"sort"
 	"strings"
 
 	"golang.org/x/tools/go/packages"
@@ -130,6 +131,41 @@ func (h *HarnessSpec) Overlay(hdir, world string) (map[string][]byte, string, ma
 	return ov, pkgName, stubs, nil
 }
 
+// AdHoc reports whether the harness's package lives outside the repository's
+// main module (a nested module such as tools/god whose own go.mod cannot be
+// resolved offline).  Such a directory is loaded, and replayed, as an ad-hoc
+// "command-line-arguments" package: explicit file list, go command run from
+// the repository root so that imports resolve against the root go.mod.
+func (h *HarnessSpec) AdHoc() bool { return h.Dir != "" }
+
+// AdHocFiles lists the package's non-test source files plus the overlay files
+// injected into its directory (sorted; overlay-only files included).
+func (h *HarnessSpec) AdHocFiles(ov map[string][]byte) ([]string, error) {
+	dir := h.PkgDir()
+	ents, err := os.ReadDir(dir)
+	if err != nil {
+		return nil, err
+	}
+	seen := map[string]bool{}
+	var files []string
+	for _, e := range ents {
+		n := e.Name()
+		if e.IsDir() || !strings.HasSuffix(n, ".go") || strings.HasSuffix(n, "_test.go") {
+			continue
+		}
+		f := filepath.Join(dir, n)
+		seen[f] = true
+		files = append(files, f)
+	}
+	for f := range ov {
+		if filepath.Dir(f) == dir && !seen[f] {
+			files = append(files, f)
+		}
+	}
+	sort.Strings(files)
+	return files, nil
+}
+
 type Loaded struct {
 	Prog    *ssa.Program
 	Pkg     *ssa.Package
@@ -174,8 +210,14 @@ func Load(h *HarnessSpec, hdir, modDir string) (*Loaded, error) {
 		Env:     GoEnv(modDir),
 		Tests:   false,
 	}
-	pattern := "."
-	pkgs, err := packages.Load(cfg, pattern)
+	patterns := []string{"."}
+	if h.AdHoc() {
+		cfg.Dir = RepoRoot
+		if patterns, err = h.AdHocFiles(ov); err != nil {
+			return nil, err
+		}
+	}
+	pkgs, err := packages.Load(cfg, patterns...)
 	if err != nil {
 		return nil, err
 	}
